@@ -83,6 +83,13 @@ pub struct Monitor {
     intern_reuse: Vec<(usize, u32)>,
     pub reused: u64,
     pub reexec: u64,
+    /// keys whose last execution was nested inside the fixpoint/fallback iteration of another key
+    participant: std::collections::HashSet<K>,
+    taint_fbp: bool,
+    taint_stale: bool,
+    /// Fb keys whose last completed execution hit a cycle inside its activation
+    last_exec_cyclic: std::collections::HashSet<K>,
+    pending_cyc: Vec<(K, bool)>,
     rev: u64,
     last_rev_dbg: String,
     pub sub: crate::mon2::Sub,
@@ -106,6 +113,11 @@ impl Monitor {
             intern_reuse: Vec::new(),
             reused: 0,
             reexec: 0,
+            participant: Default::default(),
+            taint_fbp: false,
+            taint_stale: false,
+            last_exec_cyclic: Default::default(),
+            pending_cyc: Vec::new(),
             rev: 0,
             last_rev_dbg: String::new(),
         }
@@ -184,11 +196,12 @@ impl Monitor {
         pre_world: Option<&World>,
         stats: &mut Stats,
     ) -> Result<(), (String, String)> {
-        // revision bookkeeping
-        let rd = format!("{:?}", salsa::plumbing::current_revision(&sess.db));
-        if rd != self.last_rev_dbg {
-            self.rev += 1;
-            self.last_rev_dbg = rd;
+        for (k, hit) in std::mem::take(&mut self.pending_cyc) {
+            if hit {
+                self.last_exec_cyclic.insert(k);
+            } else {
+                self.last_exec_cyclic.remove(&k);
+            }
         }
         // record writes
         match op {
@@ -222,6 +235,13 @@ impl Monitor {
                     }
                     if self.flags.justify {
                         self.justified(k, i).map_err(|m| ("unjustified-execution".to_string(), m))?;
+                    }
+                    if k.0.has_cycle_handling() {
+                        if stack.iter().any(|fr| fr.k.0.has_cycle_handling() && fr.k != k) {
+                            self.participant.insert(k);
+                        } else {
+                            self.participant.remove(&k);
+                        }
                     }
                     stack.push(Frame { k, reads: Vec::new(), untracked: false });
                 }
@@ -320,7 +340,14 @@ impl Monitor {
                     stats.bump("interned_slots_reused", 1);
                     self.intern_reuse.push((i, slot_of(key.id)));
                 }
-                Rec::Ev { k: EvK::WillIterate(_), .. } => stats.bump("cycle_iterations", 1),
+                Rec::Ev { k: EvK::WillIterate(it), .. } => {
+                    stats.bump("cycle_iterations", 1);
+                    let e = stats.maxima.entry("max_iteration_index".into()).or_insert(0);
+                    *e = (*e).max(*it as u64);
+                    if self.flags.iter_bound && *it as u32 > 200 {
+                        return Err(("iteration-bound".into(), format!("fixpoint iteration {it} exceeds the bound of 200")));
+                    }
+                }
                 _ => {}
             }
         }
@@ -350,6 +377,117 @@ impl Monitor {
                 }
             }
         }
+    }
+
+    /// Detectors for the two known cycle defects of the pinned tree (DESIGN.md, known findings).
+    /// They look for the *cause*, not the symptom, so that any other wrong answer is still
+    /// reported as a new violation:
+    ///  E1: a `cycle_result` function whose last execution was inside a cycle (as head or as
+    ///      participant) is re-executed in a later revision and completes without any cycle being
+    ///      hit inside its activation: its value switches from the fallback to the body value
+    ///      although no recorded dependency has a newer `changed_at` (and, if the cycle still
+    ///      exists from another entry point, the body value is wrong outright);
+    ///  E2: the memo of a former cycle participant is validated without execution although an
+    ///      input field read by it (directly or through cycle-handling callees, i.e. the
+    ///      dependencies salsa flattens) was written since it last executed.
+    pub fn pre_scan(&mut self, i: usize, op: &Op, log: &[Rec], sess: &Sess) {
+        let rd = format!("{:?}", salsa::plumbing::current_revision(&sess.db));
+        if rd != self.last_rev_dbg {
+            self.rev += 1;
+            self.last_rev_dbg = rd;
+        }
+        let _ = (i, op);
+        // (key, cycle hit inside the activation)
+        let mut stack: Vec<(K, bool)> = Vec::new();
+        for r in log {
+            match r {
+                Rec::Enter { f, key, .. } => stack.push(((*f, *key), false)),
+                Rec::CallBegin { f, key, .. } => {
+                    let k = (*f, *key);
+                    if let Some(pos) = stack.iter().position(|fr| fr.0 == k) {
+                        for fr in stack[pos..].iter_mut() {
+                            fr.1 = true;
+                        }
+                    }
+                }
+                Rec::Exit { f, key, unwinding, .. } => {
+                    let k = (*f, *key);
+                    if let Some((fk, hit)) = stack.pop() {
+                        if fk == k && !*unwinding && *f == F::Fb {
+                            if !hit && (self.participant.contains(&k) || self.last_exec_cyclic.contains(&k)) {
+                                if let Some(rec) = self.recs.get(&k) {
+                                    if rec.last_exec_rev < self.rev {
+                                        self.taint_fbp = true;
+                                    }
+                                }
+                            }
+                            self.pending_cyc.push((k, hit));
+                        }
+                    }
+                }
+                Rec::Ev { k: EvK::DidValidateMemo, key: Some(sk), .. } => {
+                    if let Some(k) = self.s2m.get(sk).copied() {
+                        if k.0.has_cycle_handling() && self.participant.contains(&k) {
+                            if let Some(rec) = self.recs.get(&k) {
+                                let since = rec.execs.last().map(|e| e.0).unwrap_or(0);
+                                if rec.last_exec_rev < self.rev && self.flat_input_written(k, since) {
+                                    self.taint_stale = true;
+                                }
+                            }
+                        }
+                    }
+                }
+                _ => {}
+            }
+        }
+    }
+
+    /// Was an input field in the flattened dependency set of `k` written after op `since`?
+    fn flat_input_written(&self, k: K, since: usize) -> bool {
+        let mut seen: std::collections::HashSet<K> = Default::default();
+        let mut todo = vec![k];
+        while let Some(x) = todo.pop() {
+            if !seen.insert(x) {
+                continue;
+            }
+            let Some(r) = self.recs.get(&x) else { continue };
+            for rd in &r.reads {
+                match rd {
+                    Read::Cell(c) => {
+                        if self.writes.iter().any(|(op, w)| *op > since && matches!(w, Write::Cell(y) if y == c)) {
+                            return true;
+                        }
+                    }
+                    Read::Code(n) => {
+                        if self.writes.iter().any(|(op, w)| *op > since && matches!(w, Write::Code(y) if y == n)) {
+                            return true;
+                        }
+                    }
+                    Read::Call(k2) if k2.0.has_cycle_handling() => todo.push(*k2),
+                    _ => {}
+                }
+            }
+        }
+        false
+    }
+
+    /// Attribute a wrong answer to one of the known cycle defects, if its cause was observed
+    /// earlier in this history.
+    pub fn classify(&self, out: &Out) -> Option<&'static str> {
+        if let Out::Panic(ql::items::Pk::Other(m)) = out {
+            if m.contains("returned the same value, but the previous execution changed at")
+                && (m.contains("query fx(") || m.contains("query fxj(") || m.contains("query fb("))
+            {
+                return Some("cycle-backdate-assert");
+            }
+        }
+        if self.taint_fbp {
+            return Some("fallback-participant-reexecuted-outside-its-cycle");
+        }
+        if self.taint_stale {
+            return Some("stale-cycle-participant-memo-validated");
+        }
+        None
     }
 
     pub fn at_end(&mut self, sess: &mut Sess, world: &World, stats: &mut Stats) -> Result<(), (String, String)> {
